@@ -77,6 +77,13 @@ BallCount(r) == Cardinality({v \in ((-r)..r) \X ((-r)..r) \X ((-r)..r) : v[1]*v[
 RoundTie(n, d) == (2 * n) % (2 * d) = d                      \* n/d lies exactly between two integers (not claimed)
 RoundDiv(n, d) == (2 * n + d) \div (2 * d)                   \* nearest integer to n/d for n >= 0, d > 0
 GaussShapePx(shape10, scale10) == RoundDiv(shape10, scale10)
+(* rescaling providers (from_array / from_arrays / from_file / from_files): the stored image has pixel size o, the caller asks
+   for pixel size s; the image is resampled by o/s UNLESS the two agree to within the RELATIVE tolerance tol: |o/s - 1| < tol.
+   o, s in thousandths of a nanometre, tol in thousandths.  The decision is a function of the RATIO, so it is the same for
+   (lam o, lam s): a statement about units, not about nanometres. *)
+AbsD(x) == IF x < 0 THEN -x ELSE x
+KeepAsIs(o, s, tolm) == 1000 * AbsD(o - s) < tolm * s
+OnToleranceEdge(o, s, tolm) == 1000 * AbsD(o - s) = tolm * s     \* decided by floating-point rounding: not claimed
 (* centre along one axis as a rational <<num, den>>: (shape_px - 1)/2 + shift/scale.  It depends on the ROUNDED
    pixel shape, so that the unshifted Gaussian is point-symmetric in the array that is actually returned *)
 GaussCentre(shape10, scale10, shift10) == <<(GaussShapePx(shape10, scale10) - 1) * scale10 + 2 * shift10, 2 * scale10>>
